@@ -202,6 +202,11 @@ fn cmd_check(args: &[String], reg: &Reg, table: ProfileTable) -> i32 {
         for (r, e) in agg.harness.iter().take(3) {
             harness.push(format!("{} run {}: {}", p.name(), r, e));
         }
+        if std::env::var("SIM_SHOW_COLLATERAL").is_ok() {
+            for c in agg.collateral_samples.iter().take(6) {
+                println!("collateral: {c}");
+            }
+        }
         for (k, v) in &agg.known_hits {
             known_hits.push(format!("{k} (seen {v}x)"));
         }
